@@ -150,17 +150,19 @@ def coq_eval_many(jobs, timeout=1800, par=16):
             path = os.path.join(d, name + '.v')
             with open(path, 'w') as f:
                 f.write(text)
+            fo = open(path + '.out', 'w')
             p = subprocess.Popen(['timeout', str(timeout), 'coqc', '-Q', COQ, 'H2', '-Q', d, 'Scratch', path],
-                                 stdout=subprocess.PIPE, stderr=subprocess.PIPE, text=True, cwd=d)
-            running.append((name, path, p))
+                                 stdout=fo, stderr=subprocess.STDOUT, text=True, cwd=d)
+            running.append((name, path, p, fo))
         still = []
-        for name, path, p in running:
+        for name, path, p, fo in running:
             if p.poll() is None:
-                still.append((name, path, p))
+                still.append((name, path, p, fo))
             else:
-                so, se = p.communicate()
+                fo.close()
+                so = open(path + '.out').read()
                 if p.returncode != 0:
-                    raise RuntimeError('coqc failed on %s: %s' % (path, (so + se)[-3000:]))
+                    raise RuntimeError('coqc failed on %s: %s' % (path, so[-3000:]))
                 out[name] = so
         running = still
         if running:
